@@ -105,6 +105,8 @@ def step (s : St) : List String → St × String
   | ["fault.read", k, kind] => match k.toNat? with
     | some k => ({ s with src := { s.src with faults := s.src.faults ++ [(s.w.ios + k, kind)] } }, "ok")
     | none => (s, "bad-op")
+  -- a fresh world inside one case (engine `fault`: one world per injected fault)
+  | ["reset"] => ({}, "ok")
   | ["fault.clear"] => ({ s with src := { s.src with faults := [] }, loaderFaults := [] }, "ok")
   | ["fault.load", k, what] => match k.toNat? with
     | some k => if what == "panic" || what == "err" then ({ s with loaderFaults := s.loaderFaults ++ [(s.w.loads + k, what == "panic")] }, "ok") else (s, "bad-op")
